@@ -85,7 +85,7 @@ MANIFEST = {
     "design_ref": "5/C13",
 }
 MODULES = ["PrimaiteModel.Props.C13", "PrimaiteModel.Lemmas.RegistriesRep", "PrimaiteModel.Props.C13Recv", "PrimaiteModel.Props.C13Bots", "PrimaiteModel.Props.C13C2",
-           "PrimaiteModel.Props.C13Loader"]
+           "PrimaiteModel.Props.C13Loader", "PrimaiteModel.Props.C13AppRun"]
 EXE = "drv_c13"
 EXE_W = "drv_c13recv"   # two nodes with class data and a transport (receive path, DNS / NTP payload processing)
 
